@@ -6,15 +6,15 @@ import random
 
 ID = "C06"
 LEVEL = "exploration"
-TECHNIQUE = "runtime monitoring on a virtual-time simulated network: interleaved scripted Block1/Block2 request sequences (in order, restart, repeat, skip, last-first, wrong sizes, beyond range, SZX changes, idle gaps around the state lifetime, further blocks after / during the handling of a completed upload, two or three overlapping block-0 requests for one key whose renderings take different times) from 1-3 raw endpoints against a resource whose handler takes 0 / 33 / 66 ms per invocation; oracle = reference model per (endpoint, method, cache-key) stepped over the request history in arrival order, compared with the handler log (request as seen on entry and again after the handler's await) and the wire; TimeoutDict lifetime invariant checked at a hook"
-LEVEL_TEXT = "Each generated history is stepped through a reference model of assemblies and renderings; every response (code, echoed Block1, Block2 option, payload slice) and every handler invocation (body bytes, on entry and after its await) must agree, accepting a set of outcomes only where the statement leaves a choice. An assembly ends with its final block (a further block finds no transfer: 4.08); later blocks are slices of the rendering made for the block-0 request that arrived last, whichever rendering finished last."
+TECHNIQUE = "runtime monitoring on a virtual-time simulated network: interleaved scripted Block1/Block2 request sequences (in order, restart, repeat, skip, last-first, wrong sizes, beyond range, SZX changes, idle gaps around the state lifetime, further blocks after / during the handling of a completed upload, two or three overlapping block-0 requests for one key whose renderings take different times) from 1-3 raw endpoints against a resource whose handler takes 0 / 33 / 66 ms per invocation and which, in every third history, keeps one response object that every rendering updates in place and returns again (so that requests of other endpoints / methods / queries change it between the blocks of a transfer); oracle = reference model per (endpoint, method, cache-key) stepped over the request history in arrival order, compared with the handler log (request as seen on entry and again after the handler's await) and the wire; TimeoutDict lifetime invariant checked at a hook"
+LEVEL_TEXT = "Each generated history is stepped through a reference model of assemblies and renderings; every response (code, echoed Block1, Block2 option, payload slice) and every handler invocation (body bytes, on entry and after its await) must agree, accepting a set of outcomes only where the statement leaves a choice. An assembly ends with its final block (a further block finds no transfer: 4.08); later blocks are slices of the rendering made for the block-0 request that arrived last, whichever rendering finished last, and whatever the resource does to the object it returned afterwards (the rendering is what was returned when it was made)."
 LEVEL_NOTE = "Trusted: the reference model in checks/c06.py, simnet, refcodec. Inside the (T, 2T) expiry band either outcome is accepted and the model resynchronises from the observed answer. A mis-sized block 0 and NUM>0 on a rendering that fitted one block accept {4.00, 4.08} / {2.31, 4.00} as noted in DESIGN.md. Requests overlap a running handler only in two shapes (continuations of the upload whose handler is running; block-0 requests of one key 10 ms apart, later blocks when all handlers have returned, or one 10 ms after the latest block-0 request); a later block that arrives while the latest block-0 request is still being rendered may be answered 4.08 or with the right slice. Handler invocations are attributed to the request being delivered in the virtual instant they begin."
 RULE = (
     "one case = one history of 1-4 interleaved flows; flow = (endpoint, method, query, body length, SZX, upload script, download script, idle gaps, handler durations, overlap group). "
-    "Non-trivial = at least one multi-block transfer with a deviation (restart/repeat/skip/size error/expiry/beyond range/block after completion/overlapping block-0 requests) or two interleaved flows; distinct = distinct tuples of flow scripts, size classes and handler durations"
+    "Non-trivial = at least one multi-block transfer with a deviation (restart/repeat/skip/size error/expiry/beyond range/block after completion/overlapping block-0 requests) or two interleaved flows; distinct = distinct tuples of flow scripts, size classes, handler durations and resource variant (fresh / kept response object)"
 )
-ASSUMPTIONS = ["handlers return at once or after 33 / 66 ms (below EMPTY_ACK_DELAY: every response is piggy-backed); requests are 10 ms apart, so a request arrives while a handler is at work only where the generator places it", "MAX_TRANSMIT_WAIT of the default TransportTuning is the state lifetime (read at run time)"]
-_REQ = {"response_matches_model": 2000, "handler_body": 300, "continue_echo": 500, "incomplete_408": 100, "block2_slice": 300, "expiry": 40, "timeoutdict_tick": 20, "continuation_after_completion": 120, "continuation_during_handler": 40, "slow_handler_body": 300, "overlapping_block0": 150, "later_block_after_overlap": 400, "later_block_older_finished_later": 200, "later_block_while_rendering": 40}
+ASSUMPTIONS = ["the resource variant that keeps its response object changes it only inside a handler invocation, right before returning it (never while the library is sending it)", "handlers return at once or after 33 / 66 ms (below EMPTY_ACK_DELAY: every response is piggy-backed); requests are 10 ms apart, so a request arrives while a handler is at work only where the generator places it", "MAX_TRANSMIT_WAIT of the default TransportTuning is the state lifetime (read at run time)"]
+_REQ = {"response_matches_model": 2000, "handler_body": 300, "continue_echo": 500, "incomplete_408": 100, "block2_slice": 300, "expiry": 40, "timeoutdict_tick": 20, "continuation_after_completion": 120, "continuation_during_handler": 40, "slow_handler_body": 300, "overlapping_block0": 150, "later_block_after_overlap": 400, "later_block_older_finished_later": 200, "later_block_while_rendering": 40, "later_block_after_kept_object_changed": 100}
 REQUIRED_MONITORS = {"quick": _REQ, "thorough": {k: v * 20 for k, v in _REQ.items()}}
 
 UP = ["inorder", "inorder", "restart", "restart-single", "repeat", "skip", "lastfirst", "wrongsize", "oversize-final", "unknown", "szx-change", "szx-grow", "szx-grow", "after-final", "during-handler", "during-handler"]
@@ -310,6 +310,8 @@ def run_history(h, seed, rep, case, T):
             return {"body": bytes(request.payload), "b1": None if b1 is None else (int(b1[0]), bool(b1[1]), int(b1[2])), "token": bytes(request.token or b"").hex()}
 
         class Big(R.Resource):
+            kept = None  # in "kept" histories: the one response Message this resource keeps and returns every time
+
             async def _h(self, request):
                 serial[0] += 1
                 mine = serial[0]
@@ -326,7 +328,16 @@ def run_history(h, seed, rep, case, T):
                     # the request as the handler finds it when it goes on working
                 ent["after"] = seen(request)
                 ent["t_done"] = loop.time()
-                return aiocoap.Message(payload=pattern(b"R%d-" % mine, n if rlen is None else rlen))
+                ent["rlen"] = n if rlen is None else rlen
+                if h.get("kept"):
+                    # a resource that keeps its response object: every rendering is an update of that object (new
+                    # content, the code that goes with the method) which is then returned again
+                    if self.kept is None:
+                        self.kept = aiocoap.Message()
+                    self.kept.payload = pattern(b"R%d-" % mine, ent["rlen"])
+                    self.kept.code = aiocoap.CONTENT if int(request.code) in (1, 5) else aiocoap.CHANGED
+                    return self.kept
+                return aiocoap.Message(payload=pattern(b"R%d-" % mine, ent["rlen"]))
 
             render_get = render_put = render_post = render_fetch = _h
 
@@ -364,7 +375,7 @@ def run_history(h, seed, rep, case, T):
             peer = peers[h["flows"][tr["fi"]]["ep"]]
             tr["resp"] = [m for (t, src, m, raw) in peer.inbox if m is not None and m.token == tr["tok"]]
             tr["handler"] = [e for e in hlog if e["step"] == i]
-        box.update(net=net, trace=trace, td=td)
+        box.update(net=net, trace=trace, td=td, hlog=hlog)
         await srv.shutdown()
         return True
 
@@ -594,7 +605,7 @@ def judge(h, box, res, rep, case, T, EPS):
             hist = model.hist.setdefault(K, [])
             if any(e["finish"] > now + 1e-9 for e in hist):
                 rep.monitor("overlapping_block0")
-            hist.append({"arrive": now, "finish": hb["t_done"], "bytes": R_})
+            hist.append({"arrive": now, "finish": hb["t_done"], "bytes": R_, "serial": hb["serial"]})
             del hist[:-4]
             szx2 = b2[2] if b2 is not None else 6
             size2 = 1 << (szx2 + 4)
@@ -654,6 +665,25 @@ def judge(h, box, res, rep, case, T, EPS):
                             return True  # beyond the end of that one
                 return False
 
+            def kept_object():
+                """content of the response object the resource keeps, as it is when this request arrives (kept histories)"""
+                done = [e for e in box["hlog"] if e["t_done"] is not None and e["t_done"] <= now + 1e-9]
+                if not h.get("kept") or not done:
+                    return None, None
+                e = max(done, key=lambda e: (e["t_done"], e["serial"]))
+                return e["serial"], pattern(b"R%d-" % e["serial"], e["rlen"])
+
+            def from_changed_object():
+                """the answer is what cutting from the kept object's present content gives, and that content is not the
+                rendering made for the latest block-0 request of this key"""
+                ser, cur_ = kept_object()
+                if cur_ is None or not hist or ser == hist[-1]["serial"]:
+                    return False
+                if code in (rc.c(2, 5), rc.c(2, 4)) and num2 * size2 < len(cur_) and m.payload == cur_[num2 * size2 : (num2 + 1) * size2]:
+                    return True
+                return code == rc.c(4, 0) and num2 * size2 >= len(cur_)
+
+            KEPT = ("block2/slice-of-changed-kept-object", "a later block was answered (%s) from the present content of the response object the resource keeps (a later request of another endpoint / method / cache-key has changed it since), not from the rendering made for the latest block-0 request of its own endpoint / method / cache-key" % rc.code_str(code))
             OVL = ("block2/served-from-superseded-rendering/overlapping", "a later block was answered (%s) from a rendering whose block-0 request had been superseded, while it was still being rendered, by a newer block-0 request of the same endpoint / method / cache-key, not from the rendering made for the latest block-0 request" % rc.code_str(code))
             if K in model.small:
                 # the rendering made for the latest block-0 request fitted one block (and was not kept): a later block
@@ -692,7 +722,12 @@ def judge(h, box, res, rep, case, T, EPS):
             R_ = ent[0]
             start = num2 * size2
             rep.monitor("block2_slice")
+            if h.get("kept") and hist and kept_object()[0] != hist[-1]["serial"]:
+                rep.monitor("later_block_after_kept_object_changed")
             if start >= len(R_):
+                if code != rc.c(4, 0) and from_changed_object():
+                    rep.violation(KEPT[0], KEPT[1], wit(i), case)
+                    return
                 if code != rc.c(4, 0) and overlapped():
                     rep.violation(OVL[0], OVL[1], wit(i), case)
                     return
@@ -702,6 +737,9 @@ def judge(h, box, res, rep, case, T, EPS):
                 continue
             exp_payload = R_[start : start + size2]
             exp_b2 = (num2, start + size2 < len(R_), szx2)
+            if (m.payload != exp_payload or code == rc.c(4, 0)) and from_changed_object():
+                rep.violation(KEPT[0], KEPT[1], wit(i, got=(rc.code_str(code), rb2, len(m.payload)), want=(exp_b2, len(exp_payload))), case)
+                return
             if (m.payload != exp_payload or code == rc.c(4, 0)) and overlapped():
                 rep.violation(OVL[0], OVL[1], wit(i, got=(rc.code_str(code), rb2, len(m.payload)), want=(exp_b2, len(exp_payload))), case)
                 return
@@ -715,7 +753,7 @@ def judge(h, box, res, rep, case, T, EPS):
     if res.loop_exceptions:
         rep.violation("loop-exception/" + str(res.loop_exceptions[0].get("exc_type")), "an exception reached the event loop", {"loop": res.loop_exceptions[:2]}, case)
     sig = tuple(sorted((f["method"], f["up"], f["down"], f["szx"], f["blen"] > 0, min(f["rlen"] // 1000, 2), any(s["gap"] > 50 for s in f["steps"]), tuple(round(s["delay"] * 1000) for s in f["steps"] if s.get("delay") is not None)) for f in h["flows"]))
-    rep.case(sig, nontrivial=deviation or len(h["flows"]) > 1)
+    rep.case((bool(h.get("kept")), sig), nontrivial=deviation or len(h["flows"]) > 1)
 
 
 def classify_5xx(model, K, st, now):
@@ -748,9 +786,10 @@ def run_shard(shard, rep, only=None):
     r = random.Random(shard["seed"])
     for k in range(shard["n"]):
         h = gen(r)
+        h["kept"] = k % 3 == 1  # every third history against the resource variant that keeps its response object
         case = ["hist", k]
         if only is not None and only != case:
             continue
         run_history(h, shard["seed"] * 65537 + k, rep, case, T)
         if k < 1 and shard["index"] == 0:
-            rep.sample({"class": "history", "flows": [{kk: (vv if kk != "steps" else [(s["b1"], s["b2"], len(s["payload"]), s["gap"], {k: s[k] for k in ("delay", "rlen", "hold", "settle") if s.get(k) is not None}) for s in vv]) for kk, vv in f.items()} for f in h["flows"]], "order": h["order"]})
+            rep.sample({"class": "history", "resource_keeps_its_response_object": h["kept"], "flows": [{kk: (vv if kk != "steps" else [(s["b1"], s["b2"], len(s["payload"]), s["gap"], {k: s[k] for k in ("delay", "rlen", "hold", "settle") if s.get(k) is not None}) for s in vv]) for kk, vv in f.items()} for f in h["flows"]], "order": h["order"]})
